@@ -356,6 +356,31 @@ func AskConnect(m *core.Model, c *Cfg, k *Clock, x *Ctx, cr *ConnectReq) Outcome
 	return decodeAnswer(m.MustAsk(t...))
 }
 
+// AskRequestOn / AskConnectOn: the same on a serving path of the proxy (Model/C04.lean ServerVariant): server "" =
+// the connection loop, answered by the verbs above; "handler" = martian's http.Handler under net/http's server
+// (HTTPProxyConfig.TestingHTTPHandler), outcome kinds "nohost" (the proxy's own error response: the URL has no host
+// to dial) and "srvbadreq" (net/http's server answers 400 itself) in addition.
+func AskRequestOn(m *core.Model, server string, c *Cfg, k *Clock, x *Ctx, r *Request) Outcome {
+	if server == "" {
+		return AskRequest(m, c, k, x, r)
+	}
+	t := append([]string{"C04", "request"}, Tokens(c, x, r)...)
+	t = append(t, k.tokens()...)
+	t = append(t, "server="+server)
+	return decodeAnswer(m.MustAsk(t...))
+}
+
+func AskConnectOn(m *core.Model, server string, c *Cfg, k *Clock, x *Ctx, cr *ConnectReq) Outcome {
+	if server == "" {
+		return AskConnect(m, c, k, x, cr)
+	}
+	t := append([]string{"C04", "connect"}, cfgTokens(c, x)...)
+	t = append(t, connectTokens(cr)...)
+	t = append(t, k.tokens()...)
+	t = append(t, "server="+server)
+	return decodeAnswer(m.MustAsk(t...))
+}
+
 // ---- whole configuration (C05.RouteCfg, C06.FullCfg) ----
 
 type ProxyURL struct {
